@@ -272,18 +272,40 @@ def _mentions(name):
 
 
 def _classify_body(world, modname, body):
-    t = " ".join(unparse(s) for s in body)
-    has = lambda k: k in t   # noqa: E731
-    if has("BackwardFrameError("):
-        return "error"
-    if has("BackwardFrame("):
-        return "frame"
-    if has("response(None)") or has("= 'no'") or has('= "no"'):
-        return "no"
-    if has("outstanding_transmissions -= 1"):
-        return "echo"
-    if any(isinstance(s, ast.Raise) for s in body):
-        return "raise"
+    """What a status branch makes of the report, from the calls and stores
+    in it (constructors resolved through the module's imports, not by their
+    spelling)."""
+    kinds = set()
+    for s in body:
+        for n in [s] + list(_walk_no_nested(s)):
+            if isinstance(n, ast.Call):
+                k = None
+                try:
+                    k = world.resolve_class(modname, n.func)
+                except Exception:
+                    k = None
+                if k is not None and k.qname == \
+                        "dali.frame.BackwardFrameError":
+                    kinds.add("error")
+                elif k is not None and k.qname == "dali.frame.BackwardFrame":
+                    kinds.add("frame")
+                elif isinstance(n.func, ast.Attribute) and \
+                        n.func.attr == "response" and len(n.args) == 1 and \
+                        isinstance(n.args[0], ast.Constant) and \
+                        n.args[0].value is None:
+                    kinds.add("no")
+            elif isinstance(n, ast.Assign) and isinstance(
+                    n.value, ast.Constant) and n.value.value == "no":
+                kinds.add("no")
+            elif isinstance(n, ast.AugAssign) and isinstance(
+                    n.op, ast.Sub) and "outstanding_transmissions" in \
+                    unparse(n.target):
+                kinds.add("echo")
+            elif isinstance(n, ast.Raise):
+                kinds.add("raise")
+    for k in ("error", "frame", "no", "echo", "raise"):
+        if k in kinds:
+            return k
     return "other"
 
 
